@@ -6,6 +6,7 @@ LEVEL = ("bounded symbolic execution of the real code over exact reals; every ob
          "(in)equalities decided by z3 (QF_LRA monomial abstraction of QF_NRA with solver-checked lemma selection); "
          "counterexample candidates are replayed on the unpatched float code before VIOLATION is printed")
 CLAIMED = {
+ "C17": ("every enumerated single-fault mutation of a valid call raises on every explored path; range faults (n_modes, alpha) are symbolic so the solver covers all values; the valid variants named by the property are accepted", "5 C17"),
  "C15": ("threshold truncation keeps the smallest number of modes reaching a SYMBOLIC fraction f (or all, with warning); solver policy over symbolic n, p, n_modes; seeds and solver_kwargs reach the solver call; sign convention makes the largest-magnitude loading positive and is odd", "5 C15"),
  "C07": ("pairs of fits on re-laid-out copies of one symbolic data set (transpose, feature/sample permutation, split over variables/list items, other dimension names) give equal singular values, components at each label and scores; SVD inputs verified to be permutations of each other, real sign convention executed", "5 C07"),
  "C14": ("frame step (every non-fit operation leaves all later answers, the model arrays names/attrs and the user inputs unchanged) and fit step (refit == fresh fit) - term identities for ALL values; induction over histories", "5 C14"),
